@@ -24,8 +24,15 @@ PauseRender(d, kind, pauses) == [Render(d, kind) EXCEPT !.skew = 0, !.unit = 1, 
 \* query times: all of them for small directories, SelectedQueries for long ones (FullQueries is small here)
 QueriesFor(d) == QueriesOf(d, FullQueries)
 
-QueryRec(r, q, side) == [q |-> q, sec |-> QSec(r, q, side), nsec |-> Nsec(r.kind, q)]
+\* a query: abstract time q, its concrete rendering (sec, nsec) and the time zone (seconds east of UTC) the
+\* time.Time value handed to XxxStateAt is expressed in (same instant)
+Zone(k) == CASE k % 3 = 0 -> 0 [] k % 3 = 1 -> 19800 [] OTHER -> 0 - 28800
+QueryRec(r, q, side) == [q |-> q, sec |-> QSec(r, q, side), nsec |-> Nsec(r.kind, q), tz |-> Zone(q + Seed)]
 Sides(r, q) == IF \E p \in r.pauses : 2 * p + 1 = q THEN {0, 1} ELSE {0}     \* inside a pause: just after p, just before p+1
+\* sub-second query grid (FineTimes): every odd query of the changeset kind (its state files carry nanoseconds),
+\* and of the other kinds in the smallest directories
+Fine(d, r, q) == q % 2 = 1 /\ (r.kind = "changesets" \/ d.cur <= 6)
+FineRecs(d, r, q) == IF Fine(d, r, q) THEN {[q |-> q, sec |-> x[1], nsec |-> x[2], tz |-> Zone(x[2] + q)] : x \in FineTimes(r, q)} ELSE {}
 GenRecWith(d, r, qs) == LET c == CaseOf(d, 0, NoDevs) IN
   [kind |-> r.kind, skew |-> r.skew, style |-> r.style, prefix |-> r.prefix,
    unit |-> r.unit, pauses |-> SetToSeq(r.pauses), pauselen |-> r.pauselen,
@@ -33,7 +40,7 @@ GenRecWith(d, r, qs) == LET c == CaseOf(d, 0, NoDevs) IN
    bound |-> c.bound, cap |-> Cap(c),
    current |-> CurrentFile(r, c),
    files |-> [i \in 1 .. Cardinality(d.present) |-> FileOf(r, SetToSeq(d.present)[i])],
-   queries |-> SetToSeq(UNION {{QueryRec(r, q, side) : side \in Sides(r, q)} : q \in qs})]
+   queries |-> SetToSeq(UNION {{QueryRec(r, q, side) : side \in Sides(r, q)} \cup FineRecs(d, r, q) : q \in qs})]
 GenRec(d, kind) == GenRecWith(d, Render(d, kind), QueriesFor(d))
 PauseRec(pl, kind) == GenRecWith(pl.d, PauseRender(pl.d, kind, pl.pauses), pl.qs)
 \* one kind per plan when kinds are rotated: the pause places of one size then cover several kinds
